@@ -6,12 +6,14 @@ static void Res__unlockWrite(struct Res *r) { __CPROVER_assert(g_access == A_EXC
 /* SubjectRouter members: readers need shared or exclusive access to the router's resource, mutators exclusive access */
 #define NEED_READ(self) __CPROVER_assert((self) == g_router && g_access != A_NONE && g_access_on == g_res, "C11 a reading router operation runs under the read (or write) lock of this router's resource"); g_inner_calls++
 #define NEED_WRITE(self) __CPROVER_assert((self) == g_router && g_access == A_EXCL && g_access_on == g_res, "C11 a mutating router operation runs under the write lock of this router's resource"); g_inner_calls++
-static size_t Router__notify_1(struct Router *self, struct RKey *k) { NEED_READ(self); size_t n; return n; }
-static size_t Router__notify_2(struct Router *self, struct RKey *k, int *a) { NEED_READ(self); size_t n; return n; }
-static _Bool Router__exists(struct Router *self, struct RKey *k) { NEED_READ(self); _Bool b = nondet_bool(); return b; }
-static size_t Router__depth(struct Router *self) { NEED_READ(self); size_t n; return n; }
-static void Router__shrink(struct Router *self, struct RKey *k) { NEED_WRITE(self); }
-static void Router__subscribe_2(struct Router *self, struct RKey *k, void *observer, void *ret) { NEED_WRITE(self); }
+/* (C06 through the concurrent router: the wrapped call gets the key and the arguments that were passed, and its answer is returned) */
+static struct RKey *g_key_seen; static int *g_arg_seen; static size_t g_ret_inner; static _Bool g_bret_inner;
+static size_t Router__notify_1(struct Router *self, struct RKey *k) { NEED_READ(self); g_key_seen = k; size_t n; g_ret_inner = n; return n; }
+static size_t Router__notify_2(struct Router *self, struct RKey *k, int *a) { NEED_READ(self); g_key_seen = k; g_arg_seen = a; size_t n; g_ret_inner = n; return n; }
+static _Bool Router__exists(struct Router *self, struct RKey *k) { NEED_READ(self); g_key_seen = k; _Bool b = nondet_bool(); g_bret_inner = b; return b; }
+static size_t Router__depth(struct Router *self) { NEED_READ(self); size_t n; g_ret_inner = n; return n; }
+static void Router__shrink(struct Router *self, struct RKey *k) { NEED_WRITE(self); g_key_seen = k; }
+static void Router__subscribe_2(struct Router *self, struct RKey *k, void *observer, void *ret) { NEED_WRITE(self); g_key_seen = k; }
 /* Subscription<Args...>::unsubscribe through the default invoker mutates the router: exclusive access required */
 static void tulz_USubscription_DefaultInvoker__unsubscribe(struct tulz_USubscription_DefaultInvoker *b) { __CPROVER_assert(g_access == A_EXCL && g_access_on == g_res, "C11 unsubscribing runs under the write lock of the router's resource"); g_inner_calls++; }
 static void tulz_USubscription_DefaultInvoker_int__unsubscribe(struct tulz_USubscription_DefaultInvoker_int *b) { __CPROVER_assert(g_access == A_EXCL && g_access_on == g_res, "C11 unsubscribing runs under the write lock of the router's resource"); g_inner_calls++; }
